@@ -49,6 +49,27 @@ Proof.
   eapply Permutation_trans; [apply Permutation_sym; exact Hp|apply c12_perm].
 Qed.
 
+(* A container that sorts its participants again after more were registered — configure.go stores the sorted
+   loader list back at every Initialize and later AddLoaders append to it — sequences them exactly as if all had
+   been registered first: sorting (an earlier result ++ the additions) = sorting (everything, as registered). *)
+Theorem c12_resort : forall l1 l2,
+  sort_participants (sort_participants l1 ++ l2) = sort_participants (l1 ++ l2).
+Proof. exact sort_participants_resort. Qed.
+
+(* the model's sort keeps participants of equal class and Order in registration order (what sort.Slice does on at
+   most 12 elements; the contract above does not ask for it, C15 relies on it for equal-Order loaders) *)
+Theorem c12_model_stable : forall c l,
+  filter (fun p => same_class (pcls p) c) (sort_participants l) = filter (fun p => same_class (pcls p) c) l.
+Proof. exact sort_participants_stable. Qed.
+
+Example c12_resort_example :
+  let l1 := [mkPart 0 Unord; mkPart 1 (Ord 5); mkPart 2 (Prio 3)] in
+  let l2 := [mkPart 3 (Ord 5); mkPart 4 (Prio (-1)); mkPart 5 Unord; mkPart 6 (Prio 3)] in
+  map pid (sort_participants (sort_participants l1 ++ l2)) = [4; 2; 6; 1; 3; 0; 5]%nat /\
+  map pid (sort_participants (l1 ++ l2)) = [4; 2; 6; 1; 3; 0; 5]%nat /\
+  map pid (filter (fun p => same_class (pcls p) (Prio 3)) (l1 ++ l2)) = [2; 6]%nat.
+Proof. vm_compute. repeat split. Qed.
+
 (* non-vacuity: a concrete mixed list with ties, negatives and extremes *)
 Example c12_example :
   proj (sort_participants
